@@ -13,7 +13,7 @@ the end of every operation.
 
 Not here: the E-thr scenario (two threads in quit() at line granularity) - added by the lead.
 """
-import gc, io, logging, os, sys, warnings
+import gc, io, logging, os, sys, time, warnings
 from mc.engine import explore, pmap, Ctx
 from mc.report import Report, digest
 from mc.refs.c08_model import Model
@@ -631,6 +631,7 @@ def _expand (args):
   rep = Report(PID, "model_checking")
   run = make_run(P, prm, level + 1, level)
   succ = []
+  t0 = time.process_time()
   def on_exec (ctx, w):
     if w.nops <= level: return            # the representative itself
     rep.evaluations += 1
@@ -649,6 +650,7 @@ def _expand (args):
       rep.sample(dict(history=w.render()))
   for choices in batch:
     explore(run, dev_bound=prm["dev"], prefix0=choices, on_exec=on_exec)
+  rep.extra["worker_cpu_ms"] = int((time.process_time() - t0) * 1000)
   return rep, succ
 
 
